@@ -35,7 +35,10 @@ type Engine struct {
 	exempt    map[string]bool
 	addrTaken map[*ssa.Function]bool
 	fvCache   map[string][]*ssa.Function
+	refsets   map[*ssa.Function]map[string]bool
+	refAll    map[*ssa.Function]bool
 	Exempted  []string
+	exemptLoops map[string]bool // exempted helpers that contain loops (no invariants: callers' proofs are limited by that)
 	ContractFiles []string
 
 	globalAddr map[*ssa.Global]int
@@ -287,10 +290,12 @@ func (e *Engine) computeModSets() {
 		return
 	}
 	direct := map[*ssa.Function]*ModSet{}
+	directRef := map[*ssa.Function]map[string]bool{}
 	callees := map[*ssa.Function][]*ssa.Function{}
 	for _, fn := range e.allFns {
 		m := &ModSet{Arrs: map[string]bool{}}
 		direct[fn] = m
+		directRef[fn] = map[string]bool{}
 		if fn.Blocks == nil {
 			// external / no body: known pure intrinsics handled at call sites; unknown => All
 			continue
@@ -298,6 +303,14 @@ func (e *Engine) computeModSets() {
 		for _, b := range fn.Blocks {
 			for _, ins := range b.Instrs {
 				switch x := ins.(type) {
+				case *ssa.UnOp:
+					if x.Op == token.MUL {
+						if pt, ok := underlying(x.X.Type()).(*types.Pointer); ok {
+							for _, a := range e.placeArrays(x.X, pt.Elem()) {
+								directRef[fn][a] = true
+							}
+						}
+					}
 				case *ssa.Store:
 					if freshRoot(x.Addr, map[ssa.Value]bool{}) {
 						// the cell of a local of this very call (e.g. a variable captured by a closure): it did not
@@ -382,6 +395,36 @@ func (e *Engine) computeModSets() {
 				}
 				if e.modsets[fn].add(cm) {
 					changed = true
+				}
+			}
+		}
+	}
+	// read sets (which array families a call may load from), same propagation; a function without a body or with an
+	// unresolved call reads everything unless it is a known library function (those do not read repository objects)
+	e.refsets = map[*ssa.Function]map[string]bool{}
+	e.refAll = map[*ssa.Function]bool{}
+	for _, fn := range e.allFns {
+		e.refsets[fn] = map[string]bool{}
+		for a := range directRef[fn] {
+			e.refsets[fn][a] = true
+		}
+		if fn.Blocks == nil && fn.Pkg != nil && strings.HasPrefix(fn.Pkg.Pkg.Path(), modPath) {
+			e.refAll[fn] = true
+		}
+	}
+	for changed := true; changed; {
+		changed = false
+		for _, fn := range e.allFns {
+			for _, c := range callees[fn] {
+				if e.refAll[c] && !e.refAll[fn] {
+					e.refAll[fn] = true
+					changed = true
+				}
+				for a := range e.refsets[c] {
+					if !e.refsets[fn][a] {
+						e.refsets[fn][a] = true
+						changed = true
+					}
 				}
 			}
 		}
